@@ -9,7 +9,7 @@ Init == l = 1
 Next == /\ l <= Len(Rec)
         /\ IF Rec[l].k = "SCALE"
            THEN (IF Rec[l].died THEN PrintT(<<"REJECT", l, "the process died">>)
-                 ELSE IF Rec[l].timed_out THEN PrintT(<<"REJECT", l, "did not finish within 16 times the time the linear bound allows">>)
+                 ELSE IF Rec[l].timed_out THEN PrintT(<<"REJECT", l, "did not finish within the time limit (twice the smaller of one minute and 16 times what the linear bound allows)">>)
                  ELSE IF ScaleOK(Rec[l].len1, Rec[l].t1us, Rec[l].len2, Rec[l].t2us) THEN TRUE
                  ELSE PrintT(<<"REJECT", l, "CPU time grows faster than the input">>))
            ELSE IF WorkOK(Rec[l].len, Rec[l].work) THEN TRUE ELSE PrintT(<<"REJECT", l, "work exceeds the linear bound">>)
